@@ -54,5 +54,18 @@ pub fn parse_resolve_request(request: spec::ResolveParams) -> Result<(AnyTir, Ar
         }
     }
 
+    // declared parameters may also be supplied through the environment map;
+    // an explicit argument takes precedence
+    for (key, val) in request.env.unwrap_or_default() {
+        if args.contains_key(&key) {
+            continue;
+        }
+
+        if let Some(ty) = params.get(&key) {
+            let arg = interop::from_json(val.clone(), &ty)?;
+            args.insert(key, arg);
+        }
+    }
+
     Ok((tir, args))
 }
